@@ -186,6 +186,32 @@ def stringToBytes (sys text : List Char) (returnInt : Bool) : Except Err Outcome
         compute sys info.1 returnInt (splitSign text).1 num.1 num.2.1
           (parsePrefix info.2.1 info.2.2.1 num.2.2).1 u
 
+/-- The `unit_system` argument as a caller can pass it: left out (the parameter's default applies),
+    a str, or any other hashable value (`None`, `0`, `False`, `b'IEC'`, `('IEC',)`, `1.0`, …). -/
+inductive SysArg
+  | omitted
+  | str (s : List Char)
+  | other
+  /-- a tuple whose length is not 1 -/
+  | badTuple
+  deriving DecidableEq, Repr
+
+/-- `string_to_bytes(text[, unit_system][, return_int])` for every kind of `unit_system` argument.
+    `UNIT_SYSTEM_INFO[unit_system]` (line 233) has str keys only, so a value that is not a str is a
+    KeyError, re-raised as ValueError (lines 234-236).  Building the message with an unwrapped
+    `... % unit_system` would itself raise TypeError for a tuple of length other than 1 (`%` takes a
+    tuple as the argument list; repaired by `% (unit_system,)`): the translator probes the live function
+    and records which way it goes in `tupleMessageFails`.  The default comes from the live signature. -/
+def stringToBytesArg (a : SysArg) (text : List Char) (returnInt : Bool) : Except Err Outcome :=
+  match a with
+  | .str s => stringToBytes s text returnInt
+  | .other => .error .valueError
+  | .badTuple => if tupleMessageFails then .error .typeError else .error .valueError
+  | .omitted =>
+    match defaultUnitSystem with
+    | some s => stringToBytes s text returnInt
+    | none => .error .valueError
+
 /-! ### QemuImgInfo._extract_bytes -/
 
 def isSpace (c : Char) : Bool := reSpaceAscii.contains c.toNat
